@@ -202,6 +202,34 @@ Proof.
     intro t'. apply thread_phase_ok; exact I.
 Qed.
 
+(* ---- the abstract queue is a function of the concrete state ---- *)
+Lemma walk_chain : forall s, Inv s -> forall fuel k, (List.length (g_chain s) - k <= fuel)%nat ->
+  walk (heap s) fuel (nth_error (g_chain s) k) = skipn k (g_chain s).
+Proof.
+  intros s I. induction fuel as [|f IH]; intros k Hk.
+  - cbn. rewrite skipn_all2 by lia. reflexivity.
+  - cbn [walk]. destruct (nth_error (g_chain s) k) as [n|] eqn:E.
+    + destruct (chain_heap _ _ _ I E) as [nd [A B]]. rewrite A, B, IH by lia.
+      symmetry. apply skipn_nth. exact E.
+    + apply nth_error_None in E. rewrite skipn_all2 by lia. reflexivity.
+Qed.
+
+Lemma chain_le_heap : forall s, Inv s -> (List.length (g_chain s) <= List.length (heap s))%nat.
+Proof.
+  intros s I. rewrite <- (seq_length (List.length (heap s)) 0).
+  apply NoDup_incl_length; [apply (inv_chain _ I)|].
+  intros n Hn. apply in_seq. pose proof (chain_in_heap _ _ I Hn). lia.
+Qed.
+
+Theorem absq_concrete : forall s, ms_reachable s -> absq s = queue_of_heap s.
+Proof.
+  intros s R. pose proof (inv_reachable _ R) as I. unfold queue_of_heap.
+  destruct (inv_chain _ I) as [_ [_ [Chd _]]]. rewrite Chd.
+  rewrite walk_chain by (auto; pose proof (chain_le_heap _ I); lia).
+  destruct (head_now _ I) as [p [_ Cp]]. rewrite (skipn_nth _ _ _ _ Cp). cbn [List.tl].
+  unfold absq, absq_items. rewrite map_map. reflexivity.
+Qed.
+
 (* ---- the length counter ---- *)
 Theorem length_lag : forall s, ms_reachable s ->
   len s = wrap_i32 (Z.of_nat (List.length (absq s)) + total_lag s).
